@@ -38,6 +38,8 @@ pub enum RangeForm {
     Offset,
     /// DW_AT_high_pc as an address (DW_FORM_addr)
     Addr,
+    /// DW_AT_high_pc as an offset in the fixed-size form DW_FORM_data4 (what clang emits)
+    OffsetData4,
     /// offset-form subprograms plus a DW_AT_ranges list on the unit with one (begin, end) address
     /// pair per function (what LLVM emits for multi-function units)
     UnitRanges,
@@ -132,6 +134,8 @@ pub fn synthesize(m: &WModule, o: Opts) -> Result<Vec<(String, Vec<u8>)>, String
         e.set(gimli::DW_AT_low_pc, AttributeValue::Address(Address::Constant(low)));
         if o.range_form == RangeForm::Addr {
             e.set(gimli::DW_AT_high_pc, AttributeValue::Address(Address::Constant(low + len)));
+        } else if o.range_form == RangeForm::OffsetData4 {
+            e.set(gimli::DW_AT_high_pc, AttributeValue::Data4(len as u32));
         } else {
             e.set(gimli::DW_AT_high_pc, AttributeValue::Udata(len));
         }
@@ -314,6 +318,10 @@ pub fn read_back(sections: &BTreeMap<String, Vec<u8>>) -> Result<ReadBack, Strin
                     }
                     gimli::DW_AT_high_pc => match a.value() {
                         AV::Udata(x) => high = Some(x),
+                        AV::Data1(x) => high = Some(x as u64),
+                        AV::Data2(x) => high = Some(x as u64),
+                        AV::Data4(x) => high = Some(x as u64),
+                        AV::Data8(x) => high = Some(x),
                         AV::Addr(x) => high = Some(x.wrapping_sub(low.unwrap_or(0))),
                         _ => {}
                     },
